@@ -308,7 +308,7 @@ def check_cfg(cfg, used, assigned, mode, param, nvars, max_deviations=None):
     symptoms = []
 
     def cls(b):
-        return "flag-reachable" if flag[b] else "flag-unreachable"
+        return "reachable=True" if flag[b] else "reachable=False"
 
     if rep.cyclic:
         symptoms.append(("nonterminating-order", "the state graph of the worklist loop has a cycle"))
@@ -320,16 +320,19 @@ def check_cfg(cfg, used, assigned, mode, param, nvars, max_deviations=None):
     by_coarse = {}
     for f in good:
         by_coarse.setdefault(f.coarse, f)
-    if len(by_coarse) + (len(finals) - len(good) > 0) > 1:
+    order_dependent = len(by_coarse) + (len(finals) - len(good) > 0) > 1
+    if order_dependent:
         cs = sorted(by_coarse.items(), key=lambda kv: (kv[1].devs, len(kv[1].witness), kv[1].witness))
-        (c1, f1), (c2, f2) = cs[0], cs[1] if len(cs) > 1 else cs[0]
+        (c1, f1), (c2, f2) = cs[0], (cs[1] if len(cs) > 1 else cs[0])
         diff = [i for (i, a), (_, b) in zip(c1, c2) if a != b]
-        where = "flag-reachable" if any(flag[i] for i in diff) else "flag-unreachable"
-        symptoms.append((f"schedule-dependent@{where}",
-                         f"schedule {list(f1.witness)} gives {_fmt(c1)} but schedule "
-                         f"{list(f2.witness)} gives {_fmt(c2)} (blocks {diff} differ)"))
+        where = "a block with reachable=True" if any(flag[i] for i in diff) else "blocks with reachable=False"
+        symptoms.append(("order-dependent",
+                         f"worklist order {list(f1.witness)} gives {_fmt(c1)} but order "
+                         f"{list(f2.witness)} gives {_fmt(c2)} (blocks {diff} differ: {where}); "
+                         f"{len(by_coarse)} distinct results over all orders"))
 
     # ---- oracle
+    mismatches = []
     if mode in ("LA", "LF"):
         forever = {v: o_forever_unassigned(n, succ, assigned, v) for v in gfp_vars}
         expect = {}
@@ -347,8 +350,8 @@ def check_cfg(cfg, used, assigned, mode, param, nvars, max_deviations=None):
                 for v in variables:
                     got = v in live
                     if got not in expect[b, v]:
-                        symptoms.append((f"{'live-extra' if got else 'live-missing'}@{cls(b)}",
-                                         f"schedule {list(f.witness)}: block {b}: '{v}' "
+                        mismatches.append((f"{'live-extra' if got else 'live-missing'}",
+                                         f"order {list(f.witness)}: block {b} ({cls(b)}): '{v}' "
                                          f"{'is' if got else 'is not'} live, path definition says "
                                          f"{'not live' if got else 'live'}"))
                 stray = set(live) - set(variables)
@@ -367,15 +370,21 @@ def check_cfg(cfg, used, assigned, mode, param, nvars, max_deviations=None):
                     exp_d = v in abe or b not in un
                     exp_m = v in mbe or b in asg
                     if (v in d) != exp_d:
-                        symptoms.append((f"{'def-extra' if v in d else 'def-missing'}@{cls(b)}",
-                                         f"schedule {list(f.witness)}: block {b}: '{v}' "
+                        mismatches.append((f"{'def-extra' if v in d else 'def-missing'}",
+                                         f"order {list(f.witness)}: block {b} ({cls(b)}): '{v}' "
                                          f"{'is' if v in d else 'is not'} definitely assigned, "
                                          f"path definition says {exp_d}"))
                     if (v in m) != exp_m:
-                        symptoms.append((f"{'maybe-extra' if v in m else 'maybe-missing'}@{cls(b)}",
-                                         f"schedule {list(f.witness)}: block {b}: '{v}' "
+                        mismatches.append((f"{'maybe-extra' if v in m else 'maybe-missing'}",
+                                         f"order {list(f.witness)}: block {b} ({cls(b)}): '{v}' "
                                          f"{'is' if v in m else 'is not'} maybe assigned, "
                                          f"path definition says {exp_m}"))
+    # A CFG whose result depends on the order necessarily disagrees with the oracle in
+    # some order; that is reported once, as order dependence.  Mismatches that every
+    # order produces are wrong results in their own right.
+    extra["mismatches_under_order_dependence"] = len(mismatches) if order_dependent else 0
+    if not order_dependent:
+        symptoms.extend((f"wrong-result:{k}", d) for k, d in mismatches)
     return rep, symptoms, extra
 
 
@@ -425,9 +434,17 @@ def eval_synthetic(n, real, dummy, codes, mode, param, nvars):
 # ================================================================== Part A worker
 
 
-def _code_space(n, mode, nvars):
-    alphabet = (0, 2) if mode == "AA" else (0, 1, 2, 3)
-    per_block = list(itertools.product(alphabet, repeat=nvars))
+_CODE_SPACES: dict = {}
+
+
+def _code_space(n, mode, nvars, alph=None):
+    """All per-block stat codes.  alph: optional per-variable code alphabets."""
+    key = (n, mode, nvars, alph)
+    if key in _CODE_SPACES:
+        return _CODE_SPACES[key]
+    base = (0, 2) if mode == "AA" else (0, 1, 2, 3)
+    alphs = [tuple(c for c in base if alph is None or c in alph[i]) for i in range(nvars)]
+    per_block = list(itertools.product(*alphs))
     zero = (0,) * nvars
     blocks = [b for b in range(n) if b != 1]
     space = []
@@ -437,24 +454,26 @@ def _code_space(n, mode, nvars):
             codes[b] = c
         space.append(tuple(codes))
     space.sort(key=lambda cs: (sum(1 for c in cs for k in c if k), cs))
+    _CODE_SPACES[key] = space
     return space
 
 
-def _params(mode):
-    if mode == "AA":
-        return ("e00", "e01", "e11")
-    return ((), ("x",))
+def _params(mode, only=None):
+    ps = ("e00", "e01", "e11") if mode == "AA" else ((), ("x",))
+    return tuple(p for p in ps if only is None or p in only)
 
 
 def _new_agg():
-    return {"evaluations": 0, "states": 0, "transitions": 0, "executions": 0,
+    return {"evaluations": 0, "states": 0, "transitions": 0, "executions": 0, "cpu": 0.0,
+            "bounded": 0, "order_dep_mismatches": 0,
             "complete": 0, "represented": 0, "nontrivial": 0, "max_states": 0,
             "distinct_final_max": 0, "inout_nonterminating": 0,
             "viol": {}, "general": {}, "sample": None}
 
 
 def _merge(a, b):
-    for k in ("evaluations", "states", "transitions", "executions", "complete",
+    for k in ("evaluations", "states", "transitions", "executions", "complete", "cpu",
+              "bounded", "order_dep_mismatches",
               "represented", "nontrivial", "inout_nonterminating"):
         a[k] += b[k]
     for k in ("max_states", "distinct_final_max"):
@@ -483,6 +502,7 @@ def _account(agg, rep, symptoms, extra, shaped, has_dummy, mode, param, descr, i
     agg["max_states"] = max(agg["max_states"], rep.states)
     agg["distinct_final_max"] = max(agg["distinct_final_max"], rep.distinct_coarse)
     agg["inout_nonterminating"] += extra["inout_nonterminating"]
+    agg["order_dep_mismatches"] += extra["mismatches_under_order_dependence"]
     nonempty = any(s for f in rep.finals if f.fine[0] != "EXC"
                    for _, v in f.coarse for s in _sets_of(v))
     if (rep.schedules_represented or rep.complete) > 1 and nonempty:
@@ -496,7 +516,9 @@ def _account(agg, rep, symptoms, extra, shaped, has_dummy, mode, param, descr, i
         if sym in seen:
             continue
         seen.add(sym)
-        key = f"{mode}:{_param_tag(mode, param)}:{'dummy-edges' if has_dummy else 'no-dummy-edges'}:{sym}"
+        dm = "dummy-edges" if has_dummy else "no-dummy-edges"
+        key = (f"{mode}:{sym}:{_param_tag(mode, param)}" if sym.startswith("wrong-result")
+               else f"{mode}:{sym}:{dm}")
         tgt = agg["viol"] if shaped else agg["general"]
         if key in tgt:
             tgt[key]["count"] += 1
@@ -506,17 +528,20 @@ def _account(agg, rep, symptoms, extra, shaped, has_dummy, mode, param, descr, i
 
 def eval_graph(task):
     """Worker: one graph, all stat codes and parameters of the requested modes."""
-    n, real, dummy, modes, nvars, shaped = task
+    import time
+    n, real, dummy, modes, nvars, shaped, alph, only = task
+    t0 = time.process_time()
     agg = _new_agg()
     has_dummy = any(dummy)
     for mode in modes:
-        for codes in _code_space(n, mode, nvars):
-            for param in _params(mode):
+        for codes in _code_space(n, mode, nvars, alph):
+            for param in _params(mode, only):
                 rep, symptoms, extra = eval_synthetic(n, real, dummy, codes, mode, param, nvars)
                 item = {"part": "A", "n": n, "real": real, "dummy": dummy, "codes": codes,
                         "mode": mode, "param": param, "nvars": nvars}
                 _account(agg, rep, symptoms, extra, shaped, has_dummy, mode, param,
                          describe(n, real, dummy, codes, mode, param, nvars), item)
+    agg["cpu"] = time.process_time() - t0
     return agg
 
 
@@ -620,11 +645,12 @@ def shape_defects_of_cfg(cfg):
 
 
 def eval_builder(task):
+    import time
     src, full_limit = task
+    t0 = time.process_time()
     cfg = build_from_source(src)
     n = len(cfg.bbs)
     agg = _new_agg()
-    agg["bounded"] = 0
     stats = [bb.compute_variable_stats() for bb in cfg.bbs]
     stray = {v for st in stats for v in list(st.used) + list(st.assigned)} - set(VARS)
     if stray:
@@ -637,7 +663,7 @@ def eval_builder(task):
     for mode in ("LA", "AA", "LF"):
         for param in _params(mode):
             rep, symptoms, extra = check_cfg(cfg, used, assigned, mode, param, 2, max_deviations=k)
-            agg["bounded"] += k is not None
+            agg["bounded"] += int(k is not None)
             descr = (f"{mode}[{_param_tag(mode, param)}] CFG of the real CFGBuilder for body "
                      f"{src!r}: n={n} real={ {b: list(r) for b, r in enumerate(real) if r} } "
                      f"dummy={ {b: list(d) for b, d in enumerate(dummy) if d} } "
@@ -645,56 +671,96 @@ def eval_builder(task):
                      f"assigned={ {b: sorted(a) for b, a in enumerate(assigned) if a} }")
             item = {"part": "B", "src": src, "mode": mode, "param": param, "full_limit": full_limit}
             _account(agg, rep, symptoms, extra, True, any(dummy), mode, param, descr, item)
-    # keys of Part B are prefixed so that they are separate from the synthetic ones
-    agg["viol"] = {"builder:" + k2: v for k2, v in agg["viol"].items()}
+    agg["cpu"] = time.process_time() - t0
     return agg
 
 
 # =========================================================================== run
 
 
+_NO_UA = ((0, 1, 2, 3), (0, 1, 2))          # y never "used, then assigned"
+_NO_UA1 = ((0, 1, 2),)
+
+
+def _plan(tier):
+    """Bounds of Part A.  Each entry is enumerated COMPLETELY."""
+    P = lambda **kw: dict({"max_dummy": 1, "general": False, "alph": None, "only": None,  # noqa: E731
+                           "max_total_dummy": None, "modes": ("LA", "AA", "LF")}, **kw)
+    if tier == "quick":
+        return [
+            P(n=2, nvars=2, general=True),
+            P(n=3, nvars=2),
+            P(n=4, nvars=1, modes=("LA", "AA")),
+            P(n=4, nvars=1, modes=("LF",), only=((),)),
+        ]
+    return [
+        P(n=2, nvars=2, general=True, max_dummy=2),
+        P(n=3, nvars=2, general=True),
+        P(n=3, nvars=2, max_dummy=2),
+        P(n=4, nvars=1, max_dummy=2),
+        P(n=4, nvars=2, modes=("AA",)),
+        P(n=4, nvars=2, modes=("LA",), alph=_NO_UA),
+        P(n=5, nvars=1, modes=("AA",), max_total_dummy=1),
+        P(n=5, nvars=1, modes=("LA", "LF"), alph=_NO_UA1, only=((),), max_total_dummy=1),
+    ]
+
+
+def _label(p):
+    bits = [f"n={p['n']}", f"vars={p['nvars']}", "+".join(p["modes"]),
+            f"<= {p['max_dummy']} dummy successor(s) per block"]
+    if p["max_total_dummy"] is not None:
+        bits.append(f"<= {p['max_total_dummy']} dummy edge(s) in total")
+    bits.append("all graphs" if p["general"] else "builder-shaped graphs")
+    if p["alph"] is not None:
+        bits.append(f"code alphabets {p['alph']}")
+    if p["only"] is not None:
+        bits.append(f"parameters {p['only']}")
+    return ", ".join(bits)
+
+
 def _tasks_A(tier):
     """[(label, [task...])] in increasing size order."""
     out = []
-    if tier == "quick":
-        plan = [  # (n, nvars, modes, max_dummy, general?)
-            (2, 2, ("LA", "AA", "LF"), 1, True),
-            (3, 2, ("LA", "AA", "LF"), 1, True),
-            (4, 1, ("LA", "AA", "LF"), 1, False),
-        ]
-    else:
-        plan = [
-            (2, 2, ("LA", "AA", "LF"), 2, True),
-            (3, 2, ("LA", "AA", "LF"), 2, True),
-            (4, 1, ("LA", "AA", "LF"), 2, True),
-            (4, 2, ("LA", "AA", "LF"), 1, False),
-            (5, 1, ("LA", "AA", "LF"), 1, False),
-        ]
-    for n, nvars, modes, max_dummy, general in plan:
-        tasks = []
-        ng = 0
-        for real, dummy in enum_graphs(n, max_dummy, entry_target=general):
-            shaped = not builder_shape_defects(n, real, dummy)
-            if not shaped and not general:
+    for p in _plan(tier):
+        n, tasks = p["n"], []
+        for real, dummy in enum_graphs(n, p["max_dummy"], entry_target=p["general"]):
+            if p["max_total_dummy"] is not None and sum(map(len, dummy)) > p["max_total_dummy"]:
                 continue
-            ng += 1
-            tasks.append((n, real, dummy, modes, nvars, shaped))
+            shaped = not builder_shape_defects(n, real, dummy)
+            if not shaped and not p["general"]:
+                continue
+            tasks.append((n, real, dummy, p["modes"], p["nvars"], shaped, p["alph"], p["only"]))
         tasks.sort(key=lambda t: (not t[5], graph_size((t[1], t[2])), t[1], t[2]))
-        out.append((f"n={n},vars={nvars},max_dummy={max_dummy},{'all graphs' if general else 'builder-shaped graphs'}",
-                    tasks))
+        out.append((_label(p), tasks))
+    return out
+
+
+def _spread(tasks, cost):
+    """Order tasks so that expensive ones start first (results are re-ordered by the
+    caller); purely a load-balancing measure."""
+    order = sorted(range(len(tasks)), key=lambda i: -cost(tasks[i]))
+    return order
+
+
+def _pmap_balanced(ctx, fn, tasks, cost, chunk):
+    order = _spread(tasks, cost)
+    res = ctx.pmap(fn, [tasks[i] for i in order], chunk=chunk)
+    out = [None] * len(tasks)
+    for i, r in zip(order, res):
+        out[i] = r
     return out
 
 
 def run(ctx):
     total = _new_agg()
-    total["bounded"] = 0
     bounds = []
     graphs_shaped = graphs_general = 0
     samples = []
     # ---- Part A
     for label, tasks in _tasks_A(ctx.tier):
-        # cheap graphs first inside a chunk does not matter; order of results is kept
-        aggs = ctx.pmap(eval_graph, tasks, chunk=4 if len(tasks) > 64 else 1)
+        aggs = _pmap_balanced(ctx, eval_graph, tasks,
+                              lambda t: sum(map(len, t[1])) + sum(map(len, t[2])),
+                              chunk=4 if len(tasks) > 256 else 1)
         part = _new_agg()
         for a in aggs:
             _merge(part, a)
@@ -703,6 +769,8 @@ def run(ctx):
         bounds.append({"bound": label, "graphs": len(tasks), "evaluations": part["evaluations"],
                        "states": part["states"], "complete_schedules_run": part["complete"],
                        "schedules_represented": part["represented"]})
+        ctx.say(f"  [A] {label}: {len(tasks)} graphs, {part['evaluations']} evaluations, "
+                f"{part['states']} states, cpu {part['cpu']:.0f}s")
         if part["sample"]:
             samples.append(part["sample"])
         _merge(total, part)
@@ -711,39 +779,48 @@ def run(ctx):
                  if not builder_shape_defects(n, real, dummy)]
     independence = sum(ctx.pmap(eval_independence, ind_tasks, chunk=2))
     # ---- Part B
-    size = 3 if ctx.quick else 4
-    full_limit = 6 if ctx.quick else 7
-    srcs = builder_sources(size)
-    uniq, shape_bad, built = {}, [], 0
-    for s in srcs:
-        cfg = build_from_source(s)
-        built += 1
-        bad = shape_defects_of_cfg(cfg)
-        if bad:
-            shape_bad.append((s, bad))
-        uniq.setdefault(cfg_signature(cfg), s)
-    if shape_bad:
-        raise HarnessBug(f"CFGBuilder output violates the assumed shape invariants: {shape_bad[:3]}")
-    btasks = [(s, full_limit) for s in sorted(uniq.values(), key=lambda s: (len(s), s))]
-    partB = _new_agg()
-    partB["bounded"] = 0
-    for a in ctx.pmap(eval_builder, btasks, chunk=2):
-        _merge(partB, a)
-        partB["bounded"] += a.get("bounded", 0)
-    if partB["sample"]:
-        samples.append(partB["sample"])
-    bounds.append({"bound": f"real CFGBuilder, bodies with <= {size} statements, full exploration "
-                            f"up to {full_limit} blocks, <= 2 deviations above",
-                   "bodies": built, "distinct_cfgs": len(btasks), "evaluations": partB["evaluations"],
-                   "states": partB["states"], "deviation_bounded_evaluations": partB["bounded"]})
-    _merge(total, partB)
+    b_bounds = [(2, 8)] if ctx.quick else [(3, 8), (4, 6)]
+    built = n_cfgs = 0
+    on_builder: dict = {}
+    shape_bad = []
+    seen_sigs = set()
+    for size, full_limit in b_bounds:
+        uniq = {}
+        for s_ in builder_sources(size):
+            cfg = build_from_source(s_)
+            built += 1
+            bad = shape_defects_of_cfg(cfg)
+            if bad:
+                shape_bad.append((s_, bad))
+            sig = cfg_signature(cfg)
+            if sig not in seen_sigs:
+                uniq.setdefault(sig, s_)
+        seen_sigs.update(uniq)
+        if shape_bad:
+            raise HarnessBug(f"CFGBuilder output violates the assumed shape invariants: {shape_bad[:3]}")
+        btasks = [(s_, full_limit) for s_ in sorted(uniq.values(), key=lambda s_: (len(s_), s_))]
+        n_cfgs += len(btasks)
+        partB = _new_agg()
+        for a in _pmap_balanced(ctx, eval_builder, btasks, lambda t: len(t[0]), chunk=2):
+            _merge(partB, a)
+        if partB["sample"]:
+            samples.append(partB["sample"])
+        on_builder.update(partB["viol"])
+        label = (f"real CFGBuilder, bodies with <= {size} statements, every order for CFGs with "
+                 f"<= {full_limit} blocks, every order with <= 2 deviations above")
+        bounds.append({"bound": label, "new_distinct_cfgs": len(btasks),
+                       "evaluations": partB["evaluations"], "states": partB["states"],
+                       "deviation_bounded_evaluations": partB["bounded"]})
+        ctx.say(f"  [B] {label}: {len(btasks)} CFGs, {partB['evaluations']} evaluations, "
+                f"{partB['states']} states, cpu {partB['cpu']:.0f}s")
+        _merge(total, partB)
 
     for key in sorted(total["viol"], key=lambda k: (total["viol"][k]["item"].get("n", 99), k)):
         v = total["viol"][key]
-        for _ in range(1):
-            ctx.violation(key, v["what"], v["item"])
+        ctx.violation(key, v["what"], v["item"])
         ctx.violations[key]["count"] = v["count"]
     general = {k: {"count": v["count"], "example": v["what"]} for k, v in sorted(total["general"].items())}
+    ctx.say(f"  total worker cpu {total['cpu']:.0f}s")
     return {
         "states": total["states"],
         "transitions": total["transitions"],
@@ -760,10 +837,12 @@ def run(ctx):
         "graphs_builder_shaped": graphs_shaped,
         "graphs_general_shape": graphs_general,
         "builder_bodies": built,
-        "builder_distinct_cfgs": len(btasks),
+        "builder_distinct_cfgs": n_cfgs,
         "builder_shape_invariant_failures": len(shape_bad),
+        "violation_classes_seen_on_real_builder_cfgs": {k: v["what"] for k, v in sorted(on_builder.items())},
         "independence_crosschecks": independence,
         "inout_nonterminating_cases_accepted_either_way": total["inout_nonterminating"],
+        "oracle_mismatches_folded_into_order_dependence": total["order_dep_mismatches"],
         "general_shape_disagreements_counted_not_reported": sum(v["count"] for v in total["general"].values()),
         "general_shape_disagreement_classes": general,
         "deviation_bounded_evaluations": total["bounded"],
